@@ -22,7 +22,7 @@ def fill(claim, na):
           "once, nothing after it, at an orderly closed no claim and no open mailbox remain at the server and the connector has "
           "stopped, every state after close() can still reach closed, the verdict stored matches what was observed, the mood "
           "sent matches the verdict, server error / error welcome / close() always leave the Boss closing. (CFG) closed() "
-          "terminates every observer. Not decided: real time; Boss.error exits are exempt from the release clause.",
+          "terminates every observer. decrypt_data raises nothing but CryptoError for a bad ciphertext (C08.R7), so an undecryptable message always ends as 'scary'. Not decided: real time; Boss.error exits are exempt from the release clause.",
           "T1; T3 environment table; 'server holds a claim/mailbox' is modelled from the requests the client sent (claim/open) "
           "and the responses the environment delivered (released/closed)",
           "DESIGN.md 4/C08")
@@ -32,7 +32,7 @@ def fill(claim, na):
           "state awaiting a server response re-sends its request when the connection returns; rows entering Mailbox S2B open "
           "and re-submit every un-echoed message; ws_open binds before notifying all four machines and ws_close tells the same "
           "four; over the explored product 'connected & awaiting => request outstanding on THIS connection' and 'S2B => opened "
-          "on this connection' hold in every state; _pending_outbound is only written by queue/dequeue. Not decided: the "
+          "on this connection' hold in every state; _pending_outbound is only written by queue/dequeue. the dedup set of processed peer phases is created once by the constructor and only grows (C09.R6: the server replays the mailbox on every re-open). Not decided: the "
           "two-party liveness claim (key exchange completes once both stay connected).",
           "T1; T3 environment: responses only answer requests sent on the current connection; a lost connection loses in-flight requests",
           "DESIGN.md 4/C09")
@@ -107,7 +107,7 @@ def fill(claim, na):
           "only after the literal go line; decision states come only from connection_ready, consulted only after the expected "
           "handshake matched; _check_and_remove is a stateless full-prefix comparison whose divergence raises and whose callers "
           "wait on False; handshake role table; connect() returns only _not_forever(deadline, race of listener+direct+relay "
-          "contenders), per-connection timeout armed, winner cancels losers, summary fires once. NOT decided: byte-level races "
+          "contenders), per-connection timeout armed, winner cancels losers, summary fires once. the race holds every contender from its constructor on and every loop that can fire a contender walks a copy of that set (a contender that fires while the race is being wired neither ends it nor breaks the loop). NOT decided: byte-level races "
           "between live connections.",
           "T1, T2", "DESIGN.md 4/C07")
     claim("C10",
@@ -116,7 +116,7 @@ def fill(claim, na):
           "build_record; append to the retransmit queue before any send; queue retired only by acks with seqnum<=acked; new connection "
           "refills unsent from the retransmit queue before registering/resuming, unsent before producers, loss clears unsent; every "
           "numbered record acked, old ones dropped after the ack, handlers after the watermark update; old <=> seqnum<=watermark, "
-          "watermark monotone; only un-numbered records bypass the queue; parked records replayed FIFO. NOT decided: TCP order, trace equality.",
+          "watermark monotone; only un-numbered records bypass the queue; parked records replayed FIFO. every TrafficTimer state a lost connection leaves behind accepts the next got_connection, so connector_connection_made reaches Outbound.use_connection (the replay) on every new connection (C10.R8). NOT decided: TCP order, trace equality.",
           "T1, T2", "DESIGN.md 4/C10")
     claim("C11",
           "three-ordering evaluation of choose_role, Automat table rules (selection once, stop-before-start, reconnect rows and output order), CFG guard rules for KCM, write-discipline",
@@ -131,7 +131,7 @@ def fill(claim, na):
           "Decides: all 7 record types written and read at the same tag/offset/width/encoding (ping ids 4 bytes at every producer), "
           "same struct format; NOISE_MAX_CIPHERTEXT-NOISE_MAX_PAYLOAD==16 with sender partitioning by payload and receiver by "
           "ciphertext and matching thresholds; frame length prefix agreement; every Noise read/decrypt failure becomes Disconnect -> "
-          "loseConnection; prologue divergence (and only divergence) disconnects; role table of build_protocol; records reach the "
+          "loseConnection; prologue divergence (and only divergence) disconnects; a recognised prologue / relay reply consumes exactly its own length (bytes arriving in the same segment stay buffered); role table of build_protocol; records reach the "
           "manager only in state selected and only from the decrypting unframer. NOT decided: Noise itself (not installed here).",
           "T1, T2", "DESIGN.md 4/C12")
     claim("C13",
@@ -155,7 +155,7 @@ def fill(claim, na):
           "Decides: exactly two silent intervals from `connected` reach signal_reconnect, each re-arming; traffic returns to connected from "
           "both timing states; loss accepted in both; the leader reports every connection and every loss to the timer; the interval timer "
           "is cancelled+cleared when the connection goes and cleared by its own expiry before reporting (non-None => pending); the "
-          "reconnect signal drops the connection; only a matching pong reports traffic; pings carry fresh 4-byte ids. NOT decided: seconds.",
+          "reconnect signal drops the connection; only a matching pong reports traffic; pings carry fresh 4-byte ids. a ping / pong handed to Outbound.send_if_connected is written whenever a connection exists, on no other condition (C16.R3). NOT decided: seconds.",
           "T1, T2 (Twisted DelayedCall)", "DESIGN.md 4/C16")
     claim("C17",
           "Automat exhaustiveness/outcome rules on Manager/Connector/Terminator + CFG must-pass rules + resource-registration (who-tracks-what) rule",
@@ -163,7 +163,7 @@ def fill(claim, na):
           "requested, STOPPING leaves on both loss inputs; a racing Connector is stopped and Connector.stop closes listeners, pending "
           "connectors and pending connections; Dilator.stop always leads to stoppedD; no common version => OldPeerCannotDilateError on "
           "the main channel that connect()/listen() await, early versions forwarded; every protocol built for a Connector (outbound and "
-          "inbound) is tracked in the set that stop/selection disconnect; the stop path cannot raise on a stale timer. NOT decided: that "
+          "inbound) is tracked in the set that stop/selection disconnect; selecting the winner stops listeners, pending connectors and pending connections on every path (the CONNECTED stop row relies on it: C17.R8); the stop path cannot raise on a stale timer. NOT decided: that "
           "the transport eventually reports the loss.",
           "T1, T2", "DESIGN.md 4/C17")
     claim("C19",
@@ -183,5 +183,5 @@ def fill(claim, na):
           "/ Connector._use_hints / describe / endpoint helpers is type-safe (0 sinks on the current tree; 21 on the tree before the "
           "fix:); hint objects are built only from hostname:str and the JSON integer port itself, for the two supported types, "
           "unparseable hints are dropped; encode_hint/get_connection_hints write exactly the keys, type strings and field mapping the "
-          "parsers read. A non-object in hint position is outside the property's quantifier and not reported. DNS/endpoints out of scope.",
+          "parsers read. a hint whose endpoint fails at once is one failed contender and never the end of the race (C20.R4 = the race discipline of C07). A non-object in hint position is outside the property's quantifier and not reported. DNS/endpoints out of scope.",
           "T1, T2; exceptions caught by an enclosing try in the same function are honoured", "DESIGN.md 4/C20")
